@@ -4,6 +4,7 @@ package main
 
 import (
 	"fmt"
+	"go/ast"
 	"strings"
 	"go/types"
 
@@ -236,6 +237,7 @@ func (a *Act) run(st *State, args []Term) (*State, []Term) {
 		}
 		merged := tr.mergeStates(sts)
 		a.runDefers(merged, nil)
+		a.mergedExit = merged
 		for _, pe := range a.pendingExits {
 			cur := merged.copy()
 			// this exit's share of the merged state: its own path condition, restricted to
@@ -326,6 +328,7 @@ func (a *Act) blockIn(b *ssa.BasicBlock) *State {
 	}
 	// ---- loop header ----
 	li.preSt = st.copy()
+	li.phiEntry = phiEntry
 	for _, instr := range b.Instrs {
 		if nx, ok := instr.(*ssa.Next); ok && !nx.IsString && li.visName == "" {
 			mt := nx.Iter.(*ssa.Range).X.Type().Underlying().(*types.Map)
@@ -407,6 +410,15 @@ func (a *Act) blockIn(b *ssa.BasicBlock) *State {
 	if a.contract != nil && a.parent == nil {
 		for _, dc := range a.contract.loopDecr[li.ord] {
 			li.measure = append(li.measure, a.evalSpecInt(hs, dc.expr, li))
+		}
+	}
+	if a.contract != nil && a.parent == nil {
+		for _, ac := range a.contract.loopAssume[li.ord] {
+			if !tr.wantClause(ac) {
+				continue
+			}
+			tr.assume(Implies(hs.reach, a.evalSpecBool(hs, ac.expr, li)), "assumed at the head of loop: "+ac.text)
+			tr.usedAssumed[fnName(a.fn)+" loop assume: "+ac.text] = true
 		}
 	}
 	for _, inv := range li.invs {
@@ -500,8 +512,22 @@ func (a *Act) backEdge(st *State, p, h *ssa.BasicBlock) {
 			a.oblige(st, "defer/pending-at-backedge", d.Pos(), "true", Not(fl), nil)
 		}
 	}
-	if a.contract != nil && a.contract.tco == li.ord {
-		a.tcoBackEdge(st, li)
+	if a.contract != nil && a.parent == nil && a.contract.tailrec[li.ord] != nil && a.contract.tailrec[li.ord].cont != nil {
+		// re-establish the overrides for the evaluation of the continuation outcome
+		for _, instr := range h.Instrs {
+			phi, ok := instr.(*ssa.Phi)
+			if !ok {
+				break
+			}
+			a.phiOverride[phi] = a.val(phi.Edges[pi])
+		}
+		outT := a.evalSpecTerm(st, a.contract.tailrec[li.ord].cont.expr, li)
+		for _, instr := range h.Instrs {
+			if phi, ok := instr.(*ssa.Phi); ok {
+				delete(a.phiOverride, phi)
+			}
+		}
+		a.tailrecOblige(st, li, outT, "continue")
 	}
 }
 
@@ -758,4 +784,97 @@ func (a *Act) callRetainsConservative(c *ssa.CallCommon) bool {
 	}
 	inMod := callee.Pkg != nil && strings.HasPrefix(callee.Pkg.Pkg.Path(), modulePath) || callee.Parent() != nil || isInstantiation(callee)
 	return inMod && callee.Parent() == nil
+}
+
+// tailrecOblige: the step relation holds between the loop-head values and outcome outT. The
+// relation's own arguments are evaluated at the loop head; the relation itself reads the heap
+// of the current state (values allocated during the iteration exist there; older ones are unchanged).
+func (a *Act) tailrecOblige(st *State, li *loopInfo, outT Term, what string) {
+	tr := a.tr
+	ts := a.contract.tailrec[li.ord]
+	if ts == nil || ts.rel == nil || li.headSt == nil || !tr.wantClause(ts.rel) {
+		return
+	}
+	call, ok := ts.rel.expr.(*ast.CallExpr)
+	if !ok {
+		tr.specErr(fnName(a.fn) + ": tailrec clause must be a call rel(args..., OUT)")
+		return
+	}
+	var errs []string
+	pkg := tr.eng.pkgOf(a.fn)
+	headEnv := &specEnv{a: a, tr: tr, pkg: pkg, st: li.headSt, old: a.entryState, li: li, errs: &errs, vars: map[string]specVal{}}
+	vars := map[string]specVal{"OUT": {outT, tOutcome}}
+	args := make([]ast.Expr, len(call.Args))
+	for i, x := range call.Args {
+		if id, ok := x.(*ast.Ident); ok && id.Name == "OUT" {
+			args[i] = x
+			continue
+		}
+		name := fmt.Sprintf("HEAD%d", i)
+		vars[name] = headEnv.eval(x)
+		args[i] = &ast.Ident{Name: name}
+	}
+	cur := st
+	if what == "return" && a.mergedExit != nil {
+		cur = a.mergedExit // all exits share this heap: the relation is compiled once
+	}
+	e := &specEnv{a: nil, tr: tr, pkg: pkg, st: cur, old: a.entryState, errs: &errs, vars: vars}
+	g := e.evalBool(&ast.CallExpr{Fun: call.Fun, Args: args})
+	for _, m := range errs {
+		tr.specErr(fmt.Sprintf("%s (tailrec): %s", fnName(a.fn), m))
+	}
+	loc, src := a.srcLine(a.curPos)
+	fname := fnName(a.fn)
+	// one obligation per way of reaching this point (the incoming edges of the current block and,
+	// one level up, of single-successor merge blocks): same meaning, smaller case splits
+	type way struct {
+		guard Term
+		label string
+	}
+	ways := []way{{st.reach, normSrc(src)}}
+	if what == "continue" && a.curBlock != nil {
+		var collect func(b *ssa.BasicBlock, depth int) []way
+		collect = func(b *ssa.BasicBlock, depth int) []way {
+			var out []way
+			for _, p := range b.Preds {
+				if isBackEdge(p, b) {
+					continue
+				}
+				es, ok := a.edges[[2]int{p.Index, b.Index}]
+				if !ok {
+					continue
+				}
+				lbl := ""
+				for i := len(p.Instrs) - 1; i >= 0; i-- {
+					if p.Instrs[i].Pos().IsValid() {
+						_, l := a.srcLine(p.Instrs[i].Pos())
+						lbl = normSrc(l)
+						break
+					}
+				}
+				if depth < 2 && len(p.Preds) > 1 && len(p.Instrs) <= 3 {
+					sub := collect(p, depth+1)
+					if len(sub) > 1 {
+						for _, w := range sub {
+							out = append(out, way{And(w.guard, es.reach), w.label})
+						}
+						continue
+					}
+				}
+				out = append(out, way{es.reach, lbl})
+			}
+			return out
+		}
+		if ws := collect(a.curBlock, 0); len(ws) > 1 {
+			ways = nil
+			for _, w := range ws {
+				ways = append(ways, way{And(st.reach, w.guard), w.label})
+			}
+		}
+	}
+	for _, w := range ways {
+		base := fmt.Sprintf("%s/step/%s@«%s»", fname, what, w.label)
+		tr.oblCount[base]++
+		tr.obls = append(tr.obls, &Obligation{Name: fmt.Sprintf("%s#%d", base, tr.oblCount[base]), Kind: "step", Fn: fname, Pos: loc, Src: ts.rel.text, Guard: w.guard, Goal: g})
+	}
 }
